@@ -254,6 +254,15 @@ func c14(x *mon.Ctx) {
 			add("field/minimum_tee_tcb_svn", fmt.Sprintf("len%d-equal-prefix#%d", n, rep), ref.Policy{MinTeeTcbSvn: m}, quotes, nil)
 			add("field/minimum_tee_tcb_svn", fmt.Sprintf("len%d-zero#%d", n, rep), ref.Policy{MinTeeTcbSvn: make([]byte, n)}, quotes, nil)
 		}
+		// the minimum asks one more than the quote has in exactly ONE component (each of the sixteen in turn; the quote's second
+		// component — the module's major version — is non-zero here), or one less
+		for k := 0; k < 16; k++ {
+			for _, d := range []int{1, -1} {
+				m := append([]byte{}, q.TeeTcbSvn...)
+				m[k] = byte(int(m[k]) + d)
+				add("field/minimum_tee_tcb_svn", fmt.Sprintf("component%d%+d#%d", k, d, rep), ref.Policy{MinTeeTcbSvn: m}, quotes, nil)
+			}
+		}
 		qe := uint32(binary.LittleEndian.Uint16(q.QeSvn))
 		pce := uint32(binary.LittleEndian.Uint16(q.PceSvn))
 		for _, v := range []uint32{0, 1, qe - 1, qe, qe + 1, 65535, 65536, 65536 + qe, 1 << 31, 1<<32 - 1} {
